@@ -800,15 +800,23 @@ def _tail_c16(trace, res):
 def _gen_c17(rng, seed, tier):
     fam = rng.choice(["gas", "water", "water", "heat"])
     kinds = None
-    program, meta = netgen.gen_program(rng, family=fam, max_junctions=rng.choice([4, 6, 8]), sorted_labels=rng.random() < 0.5,
-                                       kinds=kinds)
-    nops = rng.randint(1, 5 if tier == "quick" else 10)
+    # biased scenario (40 %): unsorted labels, a relabelling that reorders tables and is NOT followed by a
+    # recalculation, then a selection / drop / fuse that has to find the right rows again
+    scenario = rng.random() < 0.4
+    program, meta = netgen.gen_program(rng, family=fam, max_junctions=rng.choice([4, 6, 8]),
+                                       sorted_labels=False if scenario else rng.random() < 0.5, kinds=kinds)
+    nops = rng.randint(0, 2) if scenario else rng.randint(1, 5 if tier == "quick" else 10)
     ops = []
     for _ in range(nops):
         kind = rng.choice(["reindex_junctions", "reindex_junctions", "reindex_pipes", "reindex_elements", "continuous_junction",
                            "continuous_elements", "drop_junctions", "drop_pipes", "drop_elements_at_junctions",
                            "fuse_junctions", "select_subnet", "calc"])
         ops.append({"op": kind, "r": rng.randrange(1 << 30)})
+    if scenario:
+        ops.append({"op": rng.choice(["continuous_elements", "continuous_elements", "continuous_elements", "reindex_pipes",
+                                      "reindex_elements", "continuous_junction"]), "r": rng.randrange(1 << 30), "no_resolve": True})
+        ops.append({"op": rng.choice(["select_subnet", "select_subnet", "select_subnet", "drop_junctions", "fuse_junctions"]),
+                    "r": rng.randrange(1 << 30), "with_results": True})
     return {"engine": ENGINE, "prop": "C17", "seed": seed, "tier": tier, "program": program, "meta": meta, "ops": ops}
 
 
@@ -980,7 +988,7 @@ def _exec_c17(trace, res):
                 state = _apply_fuse_to_state(state, jt)
             elif kind == "select_subnet":
                 sub_j = rng.sample(J, rng.randint(1, len(J)))
-                sub_with_results = rng.random() < 0.5
+                sub_with_results = op.get("with_results") or rng.random() < 0.7
                 sub = tb.select_subnet(net, sub_j, include_results=sub_with_results)
             elif kind == "calc":
                 pass
@@ -1040,7 +1048,9 @@ def _exec_c17(trace, res):
                 break
         state = now
         # ---- physics: relabelling leaves results unchanged ---------------------------------------------
-        if relabel_only and base_res is not None:
+        if relabel_only and base_res is not None and not op.get("no_resolve") and rng.random() < 0.5:
+            # (only every other time: a later operation must also cope with result tables that were
+            # relabelled but not recalculated)
             out = _solve(net, meta)
             if out != "ok":
                 res.violate("C17", "C17/relabelled-net-does-not-solve:%s@%s" % (out, kind), "", oi)
